@@ -309,6 +309,8 @@ EXC_PARENTS = {
     'QueueEmpty': 'Exception',                # asyncio.QueueEmpty
     'InvalidStateError': 'Exception',         # asyncio.InvalidStateError
     'ImportError': 'Exception',
+    'ArithmeticError': 'Exception',
+    'ZeroDivisionError': 'ArithmeticError',
     'SyntaxError': 'Exception',
     'UserExc': 'Exception',                   # stands for "some Exception subclass of the user"
     'UserBaseExc': 'BaseException',           # "some BaseException-only class of the user"
